@@ -1,46 +1,56 @@
 import Fabio.Generated.C13
 import Fabio.Model.C13
-/-! Obligations over the facts regenerated from `/repo` on every run (C13). -/
+/-!
+Obligations over the facts regenerated from `/repo` on every run (C13).
+
+The extractor (`tools/factgen/c13.go`) works on the normalised AST (package constants inlined, literal
+concatenations folded, `switch` rewritten to if-chains), names variables by role (`recv`, `p0`, `p1`, …,
+`copy` for `v := *x`, `call:<callee>` for a variable assigned from a call) and follows calls into functions of
+the same package with the callee's parameters bound to the roles of the arguments — so the facts below do not
+change under renamed locals, extracted/inlined helpers, named constants or if ↔ switch.
+-/
 namespace Fabio.Props.C13Facts
 open Fabio Fabio.Model.C13 Fabio.Generated.C13
 
-/-- The pseudo-variables of `BuildRedirectURL` are the model's: `$path`, `/$path`, `$host` (and `/`, `""`). -/
-theorem build_literals_pinned : buildLits = ["", "$host", "$path", "/", "/$path"] := by decide
+/-- The pseudo-variables of `BuildRedirectURL` — the string literals that hold a `$` — are the model's. -/
+theorem build_literals_pinned : buildVarLits = ["$host", "$path", "/$path"] := by decide
 
 theorem model_literals_are_the_codes :
     lit "$path" = vPath ∧ lit "/$path" = vSlashPath ∧ lit "$host" = vHost ∧ lit "/" = slash := by decide
 
-/-- `BuildRedirectURL` first allocates a fresh `url.URL` and every store of the function goes through it. -/
+/-- `BuildRedirectURL` first assigns a freshly allocated `url.URL` to the receiver's `RedirectURL` and every
+other store of the function (helpers included) goes through that field. -/
 theorem build_stores_only_the_fresh_url :
-    buildFirstStmt = "t.RedirectURL = &url.URL{…}" ∧ buildStoresOutsideRedirectURL = [] := by decide
+    buildAllocatesFreshURLFirst = true ∧ buildStoresOutsideFreshURL = [] := by decide
 
-/-- The redirect option: `strconv.Atoi(opts["redirect"])`, bounds 300 and 399, and a value `Atoi` rejects
-leaves the code 0 (D27 repaired) — what `Model.C13.redirectCode` says. -/
+/-- The redirect option: `strconv.Atoi` of the `"redirect"` option, bounds 300 and 399, and the code is reset
+to 0 when `Atoi` fails (D27 repaired) and when it is outside the bounds — what `Model.C13.redirectCode` says. -/
 theorem redirect_code_bounds_pinned :
-    codeLo = 300 ∧ codeHi = 399 ∧ codeAtoiArg = "opts[\"redirect\"]" ∧ codeResetOnAtoiError = true := by decide
+    codeLo = 300 ∧ codeHi = 399 ∧ codeAtoiOfRedirectOption = true ∧ codeResetOnAtoiError = true ∧
+    codeResetWhenOutOfRange = true := by decide
 
-/-- `ServeHTTP`: lookup, then the redirect branch — `http.Redirect` with the target's URL and code, then
-`return` — and only after it the upstream URL / handlers (`no_upstream`). -/
+/-- `ServeHTTP`: the lookup, then the redirect branch — taken when the target has a code and a URL,
+`http.Redirect(w, r, target.RedirectURL.String(), target.RedirectCode)`, then `return` — nothing that runs an
+upstream handler or dials is called up to it, and the handler call comes after it (`no_upstream`). -/
 theorem serve_redirect_precedes_upstream :
-    serveLookupIdx < serveRedirectIdx ∧ serveRedirectIdx < serveFirstUpstreamIdx ∧
-    serveRedirectReturns = true ∧ serveUpstreamCallsUpToRedirect = [] ∧
-    serveRedirectCond = "t.RedirectCode != 0 && t.RedirectURL != nil" ∧
-    serveRedirectCall = "http.Redirect(w, r, t.RedirectURL.String(), t.RedirectCode)" := by decide
+    serveLookupBeforeRedirect = true ∧ serveRedirectReturns = true ∧ serveHandlerCalledAfterRedirect = true ∧
+    serveUpstreamCallsUpToRedirect = [] ∧
+    serveRedirectCond = ["call:Lookup.RedirectCode != 0", "call:Lookup.RedirectURL != nil"] ∧
+    serveRedirectArgs = ["p0", "p1", "call:Lookup.RedirectURL.String()", "call:Lookup.RedirectCode"] := by decide
 
-/-- No store through the shared `*Target` on the request path (D08 repaired): `Lookup` stores only into the
-request, builds the redirect URL on a per-request copy of the target, `ServeHTTP` stores nothing through
-the target. -/
+/-- No store through the shared `*Target` on the request path (D08 repaired): `BuildRedirectURL` is invoked on
+a per-request copy, every field store of `Lookup` (and of what it calls on the target) goes to that copy or to
+the request, `ServeHTTP` stores nothing through the target. -/
 theorem no_shared_target_store_on_request_path :
-    lookupFieldStores = ["req.URL.Host"] ∧ lookupBuildReceivers = ["per-request copy"] ∧
-    serveStoresThroughTarget = [] := by decide
+    lookupBuildReceivers = ["copy"] ∧ lookupStoresNotPerRequest = [] ∧ serveStoresThroughTarget = [] := by decide
 
-/-- The self-redirect skip compares scheme, host and path; the request's scheme comes from
-`requestScheme`: the `X-Forwarded-Proto` header, else the connection (D18 repaired); a skipped target is
-dropped (`target = nil`) before the loop continues (D18c repaired). -/
+/-- The self-redirect skip compares scheme, host and path of the copy's redirect URL with the request; the
+request's scheme comes from a helper of the request: the `X-Forwarded-Proto` header, else the connection
+(D18 repaired); a skipped target is dropped before the loop continues (D18c repaired). -/
 theorem self_redirect_comparison_pinned :
     lookupSelfRedirectContinues = true ∧ lookupSkipClearsTarget = true ∧
-    lookupSelfRedirectComparisons = ["target.RedirectURL.Host == req.Host", "target.RedirectURL.Path == req.URL.Path",
-      "target.RedirectURL.Scheme == requestScheme(req)"] ∧
-    requestSchemeLits = ["X-Forwarded-Proto", "", "https", "http"] ∧ requestSchemeReadsTLS = true := by decide
+    lookupSelfRedirectComparisons = ["copy.RedirectURL.Host == p0.Host", "copy.RedirectURL.Path == p0.URL.Path",
+      "copy.RedirectURL.Scheme == helper(p0)"] ∧
+    requestSchemeLits = ["", "X-Forwarded-Proto", "http", "https"] ∧ requestSchemeReadsTLS = true := by decide
 
 end Fabio.Props.C13Facts
